@@ -104,3 +104,19 @@ func heredocLookalikes() [][]byte {
 	}
 	return out
 }
+
+// heredocTrailers: what may follow the closing label of a heredoc / nowdoc on the same line from PHP 7.3 on (before
+// 7.3 only `;` and a line end).  stmt: statement forms — before 7.3 the first label line is body text and the second
+// heredoc's closing line ends the first, still a valid program (another one); call: forms inside an argument list —
+// before 7.3 the string runs to the second `EOT;` and the call is never closed: accepted exactly from 7.3.
+func heredocTrailers() (stmt, call [][]byte) {
+	for _, open := range []string{"<<<EOT", "<<<'EOT'"} {
+		for _, tr := range []string{"; // first", ";\t", "; ", ";# c", ";/* c */", "; $b = 2;", " ;", " . 'x';", "; ?>\n<?php"} {
+			stmt = append(stmt, []byte("<?php\n$a = "+open+"\nfoo\nEOT"+tr+"\n$c = "+open+"\nbar\nEOT;\necho 1;\n"))
+		}
+		for _, tr := range []string{", 1);", ");", "  , 2 );"} {
+			call = append(call, []byte("<?php\nf("+open+"\nfoo\nEOT"+tr+"\n$c = "+open+"\nbar\nEOT;\necho 1;\n"))
+		}
+	}
+	return
+}
